@@ -172,6 +172,17 @@ impl Driver {
                     l.iter().map(|x| format!("{:?}", x)).collect::<Vec<_>>().join(",")
                 }
             }
+            "ISALPHA" => {
+                let cp: u32 = it.next().unwrap().parse().unwrap();
+                if char::from_u32(cp).map(|c| c.is_alphabetic()).unwrap_or(false) { "1".into() } else { "0".into() }
+            }
+            "LOWER" => {
+                let cp: u32 = it.next().unwrap().parse().unwrap();
+                match char::from_u32(cp) {
+                    Some(c) => hex(c.to_lowercase().collect::<String>().as_bytes()),
+                    None => "-".into(),
+                }
+            }
             "FLAGS" => {
                 let cp: u32 = it.next().unwrap().parse().unwrap();
                 match char::from_u32(cp) {
@@ -338,6 +349,13 @@ impl Driver {
         self.send(&format!("FALT {}", c));
         let _ = self.stdin.flush();
         self.collect(true).pop().unwrap_or_default()
+    }
+
+    /// Model/Layers.alpha_unicode_split on a text: the layers, in order
+    pub fn layers_model(&mut self, t: &str) -> String {
+        self.send(&format!("LAYM {}", hex(t.as_bytes())));
+        let _ = self.stdin.flush();
+        self.collect(false).pop().unwrap_or_default()
     }
 
     /// read up to the END marker of a multi-line answer whose first line was already taken
